@@ -178,6 +178,11 @@ func runProxy(t *testing.T, fx *fixtures, c verifCase, w *bufio.Writer) {
 					mt.setProbe("status", 500)
 				case "hang":
 					mt.setProbe("hang", 0)
+				default:
+					if st, ok := strings.CutPrefix(kv["probe"], "status:"); ok {
+						n, _ := strconv.Atoi(st)
+						mt.setProbe("status", n)
+					}
 				}
 			case "hold":
 				mt := world.net.add(str("name"))
@@ -307,7 +312,7 @@ func genProxy(rng *mrand.Rand, n int, tier string, w *bufio.Writer) {
 			known = append(known, ts...)
 			for _, tn := range ts {
 				if chance(rng, 25) {
-					fmt.Fprintf(w, "target name=%s probe=%s\n", hexB([]byte(tn)), pick(rng, []string{"fail", "hang", "fail"}))
+					fmt.Fprintf(w, "target name=%s probe=%s\n", hexB([]byte(tn)), pick(rng, []string{"fail", "hang", "fail", "status:300", "status:299", "status:404", "status:204"}))
 				}
 				if chance(rng, 30) {
 					fmt.Fprintf(w, "hold name=%s v=1\n", hexB([]byte(tn)))
@@ -392,7 +397,7 @@ func genProxy(rng *mrand.Rand, n int, tier string, w *bufio.Writer) {
 				if len(known) > 0 {
 					tn := pick(rng, known)
 					if chance(rng, 50) {
-						fmt.Fprintf(w, "target name=%s probe=%s\n", hexB([]byte(tn)), pick(rng, []string{"ok", "ok", "fail", "hang"}))
+						fmt.Fprintf(w, "target name=%s probe=%s\n", hexB([]byte(tn)), pick(rng, []string{"ok", "ok", "fail", "hang", "status:300", "status:299", "status:304", "status:503"}))
 					} else {
 						fmt.Fprintf(w, "hold name=%s v=%s\n", hexB([]byte(tn)), b2s(chance(rng, 50)))
 					}
